@@ -546,6 +546,56 @@ _m('find_indices', lambda pt, a: a['self'].find_indices(a['other']),
    gen=lambda S, W: ok({'self': H(W, S, 'subpep_ann') or H(W, S, 'ann'), 'other': H(W, S, 'ann')}))
 
 
+# ------------------------------------------------------------------------------------------ explicit editors
+# Explicit in-place editors of a shared annotation (exempt from the argument-unchanged invariant on `self`). They are
+# in the catalogue because of what must hold AFTER them: every later query on the edited object must return what a
+# fresh object with the same content returns (a per-object cache that the editor forgot to invalidate shows here).
+
+EDITORS = []
+
+
+def _ed(name, fn, gen=None, **kw):
+    g = gen or (lambda S, W: ok({'self': H(W, S, 'ann')}))
+    op('ed.' + name, g, fn, exempt=('self',), weight=kw.pop('weight', 0.35), tags=('editor',), **kw)
+    EDITORS.append('ed.' + name)
+
+
+def _g_ed_mods(S, W):
+    return ok({'self': H(W, S, 'ann'), 'mods': H(W, S, 'modlist'), 'append': V(S.coin(0.7))})
+
+
+def _g_ed_index(S, W):
+    a = H(W, S, 'ann')
+    if a is None:
+        return None
+    return {'self': a, 'index': V(S.randint(0, max(0, seqlen(W, a) - 1))), 'mods': H(W, S, 'modlist'),
+            'append': V(S.coin(0.7))}
+
+
+_ed('add_nterm_mods', lambda pt, a: a['self'].add_nterm_mods(a['mods'], a['append']), gen=_g_ed_mods)
+_ed('add_cterm_mods', lambda pt, a: a['self'].add_cterm_mods(a['mods'], a['append']), gen=_g_ed_mods)
+_ed('add_unknown_mods', lambda pt, a: a['self'].add_unknown_mods(a['mods'], a['append']), gen=_g_ed_mods)
+_ed('add_labile_mods', lambda pt, a: a['self'].add_labile_mods([pt.Mod('Phospho', 1)], a['append']),
+    gen=lambda S, W: ok({'self': H(W, S, 'ann'), 'append': V(S.coin(0.7))}))
+_ed('add_internal_mod', lambda pt, a: a['self'].add_internal_mod(a['index'], a['mods'], a['append']), gen=_g_ed_index)
+_ed('pop_internal_mod', lambda pt, a: a['self'].pop_internal_mod(a['index']), gen=_g_ed_index)
+_ed('pop_labile_mods', lambda pt, a: a['self'].pop_labile_mods())
+_ed('pop_nterm_mods', lambda pt, a: a['self'].pop_nterm_mods())
+_ed('set_charge', lambda pt, a: setattr(a['self'], 'charge', a['charge']),
+    gen=lambda S, W: ok({'self': H(W, S, 'ann'), 'charge': V(S.pick([None, 1, 2, 3]))}))
+_ed('add_static_mods', lambda pt, a: a['self'].add_static_mods(['[57]@C'], a['append']),
+    gen=lambda S, W: ok({'self': H(W, S, 'ann'), 'append': V(S.coin(0.7))}))
+_ed('add_isotope_mods', lambda pt, a: a['self'].add_isotope_mods(['15N'], a['append']),
+    gen=lambda S, W: ok({'self': H(W, S, 'ann'), 'append': V(S.coin(0.7))}))
+_ed('reverse_inplace', lambda pt, a: a['self'].reverse(inplace=True, swap_terms=a['swap']),
+    gen=lambda S, W: ok({'self': H(W, S, 'ann'), 'swap': V(S.coin())}))
+_ed('shift_inplace', lambda pt, a: a['self'].shift(a['n'], inplace=True),
+    gen=lambda S, W: ok({'self': H(W, S, 'ann'), 'n': V(S.randint(-5, 5))}))
+_ed('sort_inplace', lambda pt, a: a['self'].sort_residues(inplace=True))
+_ed('condense_static_inplace', lambda pt, a: a['self'].condense_static_mods(inplace=True))
+_ed('set_sequence', lambda pt, a: setattr(a['self'], 'sequence', a['self'].sequence[::-1]))
+
+
 def pick_op(S, W, names=None):
     """Draw an op (weighted) whose preconditions hold; returns (name, args) or None."""
     names = names or list(OPS)
